@@ -269,6 +269,8 @@ def check_mutators(chk, crate, g, rule="R9"):
             b = crate.bodies.get(key)
             if b is None or b["argc"] < 1:
                 continue
+            if not b.get("pub", True):
+                continue  # private helpers (and methods of crate-private traits) are reached through the public operations that use them
             t1 = tys[b["locals"][1]]
             if not (t1["k"] == "ref" and t1["mut"] and tys[t1["to"]]["k"] == "adt" and tys[t1["to"]]["def"] == g.path):
                 continue
